@@ -19,6 +19,8 @@ func init() {
 	sym.Register("c12.HTransparentRead", HTransparentRead)
 	sym.Register("c12.HInject", HInject)
 	sym.Register("c12.HReadOnly", HReadOnly)
+	sym.Register("c12.HInjectRead", HInjectRead)
+	sym.Register("c12.HFile", HFile)
 }
 
 var operands = []string{"/w/a/a", "/w/a", "/w/c", "/w/b", "/w"}
@@ -263,4 +265,259 @@ func HReadOnly(kind, seed, via, m int) {
 	})
 	sym.Assert(!res.Panicked, "C12|"+label+"|readonly|panic|"+res.Class+"|"+res.Site)
 	sym.Assert(hx.Snapshot(a, "/", true) == before, "C12|"+label+"|readonly|base-changed")
+}
+
+// readCall performs read-only call name on p and returns its error; done is
+// called when the call proper is over (before the harness closes what it got).
+func readCall(v avfs.VFS, name, p string, done func()) error {
+	switch name {
+	case "Stat":
+		_, err := v.Stat(p)
+		return err
+	case "Lstat":
+		_, err := v.Lstat(p)
+		return err
+	case "ReadDir":
+		_, err := v.ReadDir(p)
+		return err
+	case "ReadFile":
+		_, err := v.ReadFile(p)
+		return err
+	case "Readlink":
+		_, err := v.Readlink(p)
+		return err
+	case "EvalSymlinks":
+		_, err := v.EvalSymlinks(p)
+		return err
+	case "Glob":
+		_, err := v.Glob(p + "/*")
+		return err
+	case "OpenRead", "OpenReadDir":
+		f, err := v.Open(p)
+		done()
+		if err == nil {
+			_ = f.Close()
+		}
+		return err
+	case "WalkDir":
+		return v.WalkDir(p, func(path string, d fs.DirEntry, err error) error { return err })
+	}
+	return nil
+}
+
+// HInjectRead: one fault (chosen by the solver) during a read-only call: a
+// primitive returns exactly the injected error, a composite (ReadFile, ReadDir,
+// Glob, WalkDir) returns an error, and the base is untouched either way.
+func HInjectRead(kind, seed, m int) {
+	a := hx.NewBase(kind)
+	if seed == 3 && !a.HasFeature(avfs.FeatSymlink) {
+		return
+	}
+	hx.Seed(a, seed)
+	ff := failfs.New(a)
+	fired := 0
+	consulted := 0
+	firedFn := ""
+	callDone := false
+	_ = ff.SetFailFunc(func(_ avfs.VFSBase, fn avfs.FnVFS, _ *failfs.FailParam) error {
+		if callDone {
+			return nil
+		}
+		consulted++
+		if fired == 0 && sym.Bool("fail") {
+			fired++
+			firedFn = fn.String()
+			return errInjected
+		}
+		return nil
+	})
+	name := hx.Readers[m]
+	pi := sym.Choose("p", NumOperands)
+	p := operands[pi]
+	label := hx.KindName(kind) + "|" + name + "|" + operandKinds[pi]
+	sym.Label(label)
+	sym.Reach("inject-read")
+	before := hx.Snapshot(a, "/", true)
+	var err error
+	res := sym.Outcome(func() {
+		err = readCall(ff, name, p, func() { callDone = true })
+		callDone = true
+	})
+	sym.Assert(!res.Panicked, "C12|"+label+"|inject|panic|"+res.Class+"|"+res.Site)
+	sym.Observe("err", hx.Code(err))
+	sym.Observe("consulted", consulted)
+	sym.Assert(consulted > 0, "C12|"+label+"|failure-function-never-consulted")
+	if fired > 0 {
+		sym.Reach("read-fault-fired")
+		switch name {
+		case "ReadFile", "ReadDir", "Glob", "WalkDir":
+			sym.Assert(err != nil, "C12|"+label+"|inject|composite-succeeds-although-"+firedFn+"-failed")
+		default:
+			sym.Assert(err == errInjected, "C12|"+label+"|inject|injected-error-not-returned")
+		}
+	}
+	sym.Assert(hx.Snapshot(a, "/", true) == before, "C12|"+label+"|inject|base-changed-by-read-call")
+}
+
+var fileMethods = []string{"Chdir", "Chmod", "Chown", "Close", "Read", "ReadAt", "ReadDir", "Readdirnames", "Seek", "Stat", "Sync", "Truncate", "Write", "WriteAt", "WriteString"}
+
+// NumFileMethods is len(fileMethods).
+const NumFileMethods = 15
+
+// fileCall performs File method name and renders everything it returned.
+func fileCall(f avfs.File, name string, s hx.Scalars, n int) (string, error) {
+	switch name {
+	case "Chdir":
+		err := f.Chdir()
+		return "", err
+	case "Chmod":
+		err := f.Chmod(s.Mode & 0o777)
+		return "", err
+	case "Chown":
+		err := f.Chown(s.Uid, s.Gid)
+		return "", err
+	case "Close":
+		err := f.Close()
+		return "", err
+	case "Read":
+		b := make([]byte, n)
+		k, err := f.Read(b)
+		return hx.Itoa(k) + ":" + string(b[:k]), err
+	case "ReadAt":
+		b := make([]byte, n)
+		k, err := f.ReadAt(b, s.Sec)
+		if k < 0 || k > n {
+			k = 0
+		}
+		return hx.Itoa(k) + ":" + string(b[:k]), err
+	case "ReadDir":
+		es, err := f.ReadDir(n - 1)
+		out := ""
+		for _, e := range es {
+			out += e.Name() + ","
+		}
+		return out, err
+	case "Readdirnames":
+		ns, err := f.Readdirnames(n - 1)
+		out := ""
+		for _, e := range ns {
+			out += e + ","
+		}
+		return out, err
+	case "Seek":
+		o, err := f.Seek(s.Sec, s.Flag)
+		return hx.Itoa(int(o)), err
+	case "Stat":
+		fi, err := f.Stat()
+		if err != nil {
+			return "", err
+		}
+		return fi.Name() + "," + hx.Itoa(int(fi.Size())) + "," + hx.Itoa(int(fi.Mode())), nil
+	case "Sync":
+		return "", f.Sync()
+	case "Truncate":
+		return "", f.Truncate(s.Size)
+	case "Write":
+		k, err := f.Write(s.Data[:n%3])
+		return hx.Itoa(k), err
+	case "WriteAt":
+		k, err := f.WriteAt(s.Data[:n%3], s.Sec)
+		return hx.Itoa(k), err
+	case "WriteString":
+		k, err := f.WriteString(string(s.Data[:n%3]))
+		return hx.Itoa(k), err
+	}
+	return "", nil
+}
+
+var handleKinds = []string{"rdwr", "rdonly", "append", "dir"}
+
+func openHandle(v avfs.VFS, st int) (avfs.File, error) {
+	switch st {
+	case 0:
+		return v.OpenFile("/w/a/a", 2, 0)
+	case 1:
+		return v.OpenFile("/w/a/a", 0, 0)
+	case 2:
+		return v.OpenFile("/w/a/a", 1|0x400, 0)
+	}
+	return v.OpenFile("/w/a", 0, 0)
+}
+
+// HFile: File method m on a handle (state st) obtained through FailFS, after an
+// optional Seek. mode 0: no failure function - result, error, following offset
+// and tree equal those of the same method on a handle of a twin base. mode 1:
+// the solver may fail the one consultation the method makes: exactly the
+// injected error comes back, the base and the handle's offset are untouched.
+func HFile(kind, st, m, mode int) {
+	a := hx.NewBase(kind)
+	b := hx.NewBase(kind)
+	hx.Seed(a, 1)
+	hx.Seed(b, 1)
+	ff := failfs.New(a)
+	fa, ea := openHandle(ff, st)
+	fb, eb := openHandle(b, st)
+	if ea != nil || eb != nil {
+		return
+	}
+	name := fileMethods[m]
+	label := hx.KindName(kind) + "|File." + name + "|" + handleKinds[st]
+	sym.Label(label)
+	sym.Reach("file")
+	sym.Assert(wrappedFile(fa), "C12|"+label+"|returned-file-not-wrapped")
+	s := scalars()
+	sym.Assume(s.Size <= 8 && s.Sec <= 8)
+	n := sym.Choose("n", 4)
+	if st != 3 && sym.Bool("preseek") {
+		_, _ = fa.Seek(1, 0)
+		_, _ = fb.Seek(1, 0)
+	}
+	fired := 0
+	consulted := 0
+	callDone := false
+	if mode == 1 {
+		_ = ff.SetFailFunc(func(_ avfs.VFSBase, fn avfs.FnVFS, _ *failfs.FailParam) error {
+			if callDone {
+				return nil
+			}
+			consulted++
+			if fired == 0 && sym.Bool("fail") {
+				fired++
+				return errInjected
+			}
+			return nil
+		})
+	}
+	before := hx.Snapshot(a, "/", true)
+	var ra, rb string
+	var erra, errb error
+	res := sym.Outcome(func() {
+		ra, erra = fileCall(fa, name, s, n)
+		callDone = true
+	})
+	sym.Assert(!res.Panicked, "C12|"+label+"|panic|"+res.Class+"|"+res.Site)
+	sym.Observe("err", hx.Code(erra))
+	if mode == 1 {
+		sym.Assert(consulted > 0, "C12|"+label+"|failure-function-never-consulted")
+	}
+	if fired > 0 {
+		sym.Reach("file-fault-fired")
+		sym.Assert(erra == errInjected, "C12|"+label+"|inject|injected-error-not-returned")
+		sym.Assert(hx.Snapshot(a, "/", true) == before, "C12|"+label+"|inject|base-changed-by-failed-call")
+		if st != 3 && name != "Close" {
+			oa, _ := fa.Seek(0, 1)
+			ob, _ := fb.Seek(0, 1)
+			sym.Assert(oa == ob, "C12|"+label+"|inject|offset-moved-by-failed-call")
+		}
+		return
+	}
+	rb, errb = fileCall(fb, name, s, n)
+	sym.Assert(hx.Code(erra) == hx.Code(errb), "C12|"+label+"|transparent|error-differs|"+hx.CodeName(hx.Code(erra))+"-vs-"+hx.CodeName(hx.Code(errb)))
+	sym.Assert(ra == rb, "C12|"+label+"|transparent|result-differs")
+	if st != 3 && name != "Close" {
+		oa, _ := fa.Seek(0, 1)
+		ob, _ := fb.Seek(0, 1)
+		sym.Assert(oa == ob, "C12|"+label+"|transparent|offset-differs")
+	}
+	sym.Assert(hx.Snapshot(a, "/", false) == hx.Snapshot(b, "/", false), "C12|"+label+"|transparent|tree-differs")
 }
